@@ -232,7 +232,47 @@ def children_are_direct(ctx):
     ctx.floor("child_creation_sites", 1, "addChildToCacheAndGet calls in addChildrenToCacheAndGet")
 
 
+
+def candidates_come_from_ranking(ctx):
+    """Every KillCandidate is an element of what the plugin's own rankForKilling returned (for the configured cgroups, or for the children of
+    the candidate being descended into), or the re-resolved serialised victim of a deferred kill.  rankForKilling is where a plugin's
+    eligibility filter lives (kill_by_swap_usage, kill_by_pg_scan): a candidate built past it was never filtered.  Shared by C01 and C09."""
+    P = ctx.prog
+    # ------------------------------------------------------------ R10 KillCandidate construction sites
+    PAT = [
+        ("initial", r"^\{elem\(\*std::make_shared\(this->rankForKilling\(param:ctx, param:initialCgroups\)\)\), "),
+        ("children", r"^\{elem\(\*std::make_shared\(this->rankForKilling\(param:ctx, param:ctx\.addChildrenToCacheAndGet\("
+                     r"param:nextBestOptionStack\.back\(\)\.cgroupCtx\.get\(\)\)\)\)\), "),
+        ("deserialised", r"^\{\*deserializeCgroupRef\(param:skc\.target\), "),
+    ]
+    seen = set()
+    for f in P.fns.values():
+        if "BaseKillPlugin" not in f.qname:
+            continue
+        Xk = None
+        for i, n in enumerate(f.nodes):
+            t = n.get("type", "")
+            if n["k"] != "initlist" or not t.endswith("KillCandidate") or "Serialized" in t:
+                continue
+            Xk = Xk or Expander(P, f)
+            txt = Xk(i)
+            ctx.use(f)
+            which = next((nm for nm, p in PAT if re.match(p, txt)), None)
+            ctx.count("killcandidate_sites")
+            if which:
+                seen.add(which)
+                ctx.ok("candidate-source:" + which, "provenance", f.loc(i), "KillCandidate built from " + which)
+            else:
+                ctx.violation("candidate-source:other:" + owner(P, f).replace("Oomd::", ""), "provenance", f.loc(i),
+                              "KillCandidate built from an unlisted source: " + txt[:200])
+    ctx.floor("killcandidate_sites", 3, "KillCandidate construction sites")
+    for nm, _ in PAT:
+        if nm not in seen:
+            ctx.broken("candidate-source-missing:" + nm, "anchor", "-", "expected construction site '%s' not found" % nm)
+
 def run(ctx):
+    from .C16 import components_come_from_split
+    components_come_from_split(ctx)
     from .C07 import deferred_victim_is_the_selected_candidate
     deferred_victim_is_the_selected_candidate(ctx)
     from .C12 import one_name_per_destination
@@ -477,37 +517,7 @@ def run(ctx):
                   "candidate-from-deserialised-victim", "provenance", rfp.loc(i),
                   "the deferred victim is re-resolved from the serialised intended victim", "the candidate is " + a1)
 
-    # ------------------------------------------------------------ R10 KillCandidate construction sites
-    PAT = [
-        ("initial", r"^\{elem\(\*std::make_shared\(this->rankForKilling\(param:ctx, param:initialCgroups\)\)\), "),
-        ("children", r"^\{elem\(\*std::make_shared\(this->rankForKilling\(param:ctx, param:ctx\.addChildrenToCacheAndGet\("
-                     r"param:nextBestOptionStack\.back\(\)\.cgroupCtx\.get\(\)\)\)\)\), "),
-        ("deserialised", r"^\{\*deserializeCgroupRef\(param:skc\.target\), "),
-    ]
-    seen = set()
-    for f in P.fns.values():
-        if "BaseKillPlugin" not in f.qname:
-            continue
-        Xk = None
-        for i, n in enumerate(f.nodes):
-            t = n.get("type", "")
-            if n["k"] != "initlist" or not t.endswith("KillCandidate") or "Serialized" in t:
-                continue
-            Xk = Xk or Expander(P, f)
-            txt = Xk(i)
-            ctx.use(f)
-            which = next((nm for nm, p in PAT if re.match(p, txt)), None)
-            ctx.count("killcandidate_sites")
-            if which:
-                seen.add(which)
-                ctx.ok("candidate-source:" + which, "provenance", f.loc(i), "KillCandidate built from " + which)
-            else:
-                ctx.violation("candidate-source:other:" + owner(P, f).replace("Oomd::", ""), "provenance", f.loc(i),
-                              "KillCandidate built from an unlisted source: " + txt[:200])
-    ctx.floor("killcandidate_sites", 3, "KillCandidate construction sites")
-    for nm, _ in PAT:
-        if nm not in seen:
-            ctx.broken("candidate-source-missing:" + nm, "anchor", "-", "expected construction site '%s' not found" % nm)
+    candidates_come_from_ranking(ctx)
     # children are listed only under the recursive guard
     flr = Flow(P, rts, cg=ctx.cg)
     for i in rts.calls("addChildrenToCacheAndGet"):
